@@ -10,6 +10,8 @@ mod scratch;
 mod view;
 
 use self::scratch::LazyScratch;
+#[cfg(feature = "verif-hooks")]
+pub use self::scratch::LazyScratch as VerifLazyScratch;
 pub use self::view::{DataView, InvalidView};
 
 pub(crate) type DatacakeSerializer =
